@@ -223,6 +223,34 @@ def r10d(ctx):
                        "get_part of a FOLDER container compares time stamps under self.path; the clone has path None: every get_part raises")
 
 
+def r10f(ctx):
+    """Pre-loading must not overwrite what is already in memory (edited or deleted parts)."""
+    repo = ctx.repo
+    ctx.rule("R10f", "bulk loaders of the part table never overwrite a part that is already in memory", floor=1)
+    c = repo.cls("Container")
+    INITIAL = {"_read_zip": "initial load into an empty part table (called from open())"}
+    n_inst = 0
+    for name, fs in c.methods.items():
+        f = fs[0]
+        for loop in [n for n in walk_no_nested(f.node) if isinstance(n, ast.For) and ("namelist" in ast.unparse(n.iter) or "_get_folder_parts" in ast.unparse(n.iter))]:
+            stores = [a for a in ast.walk(loop) if isinstance(a, ast.Assign) and isinstance(a.targets[0], ast.Subscript) and "__parts" in ast.unparse(a.targets[0].value)
+                      and "__parts_ts" not in ast.unparse(a.targets[0].value)]
+            for st in stores:
+                n_inst += 1
+                key = ast.unparse(st.targets[0].slice)
+                gs = structural_guards(st, stop=loop)
+                guarded = any(pol and isinstance(t, ast.Compare) and isinstance(t.ops[0], ast.NotIn) and ast.unparse(t.left) == key and "__parts" in ast.unparse(t.comparators[0])
+                              for t, pol in gs)
+                ok = guarded or name in INITIAL
+                ctx.instance("R10f", f"{f.file}:{f.ident}", f"{norm(st, 50)} {'guarded by `' + key + ' not in self.__parts`' if guarded else ('(' + INITIAL.get(name, 'UNGUARDED') + ')')}",
+                             ok=ok, nontrivial=True, line=st.lineno)
+                if not ok:
+                    ctx.report("R10f", f, st, st, f"{c.name}.{name} re-reads every member from the file into the part table, overwriting parts that were "
+                               f"modified (set_part) or deleted (None) in memory: a clone of an edited container silently reverts to the file's content")
+    if n_inst == 0:
+        raise AnalysisError("R10f: no bulk loader of the part table found")
+
+
 def r10e(ctx):
     repo = ctx.repo
     ctx.rule("R10e", "clones keep edited state: Document.clone flushes/clones parsed parts; XmlPart.clone keeps tree and root coherent", floor=2)
@@ -283,6 +311,7 @@ def run(ctx):
     r10b(ctx)
     r10c(ctx)
     r10d(ctx)
+    r10f(ctx)
     r10e(ctx)
 
 
@@ -315,6 +344,9 @@ SEEDS = [
     Seed("Container.clone pre-loads after the copy", "fault", _CT,
          "        if self.path and self.__packaging == ZIP:\n            self._get_all_zip_part()\n        elif self.path and self.__packaging == FOLDER:\n            for path in self._get_folder_parts():\n                if path not in self.__parts:\n                    self.get_part(path)\n        clone = deepcopy(self)\n        clone.path = None",
          "        clone = deepcopy(self)\n        clone.path = None\n        if self.path and self.__packaging == ZIP:\n            self._get_all_zip_part()\n        elif self.path and self.__packaging == FOLDER:\n            for path in self._get_folder_parts():\n                if path not in self.__parts:\n                    self.get_part(path)", "R10d"),
+    Seed("zip pre-load overwrites in-memory parts again", "fault", _CT,
+         "                    upath = normalize_path(name)\n                    if upath not in self.__parts:\n                        self.__parts[upath] = zf.read(name)\n        except BadZipfile:\n            pass",
+         "                    upath = normalize_path(name)\n                    self.__parts[upath] = zf.read(name)\n        except BadZipfile:\n            pass", "R10f"),
     Seed("Document.clone drops the edits again", "fault", _DOC,
          "                for path, part in self.__xmlparts.items():\n                    if part is not None:\n                        container.set_part(path, part.serialize())\n                setattr(clone, name, container)",
          "                setattr(clone, name, container)", "R10e"),
